@@ -304,7 +304,8 @@ class Block:
         for i, (step, rec) in enumerate(zip(case["steps"], obs["steps"])):
             where = f"step {i} {step['m']}({step.get('args', {})}) draws {step.get('r')} from {pre}"
             if rec["error"] is not None:
-                out.append(Violation("valid", f"{sig}:{step['m']}:raised", f"{where}: {rec['error']}"))
+                kind = "raised:kernel-larger-than-input" if "Kernel size can't be greater than actual input size" in rec["error"] else "raised"
+                out.append(Violation("valid", f"{sig}:{step['m']}:{kind}", f"{where}: {rec['error']}"))
                 break
             post = rec["desc"]
             if rec["attr"] and rec["attr"] not in obs["methods"]:
